@@ -127,6 +127,30 @@ func c08Sources(r *drv.Run) ([][]byte, map[string]int) {
 		}
 		add("random-bytes", s)
 	}
+	// the lexer reads through a 4096-byte buffer: hostile tails pushed across a buffer boundary
+	npad := 3000
+	if !quick(r) {
+		npad = 60000
+	}
+	base := len(out)
+	for i := 0; i < npad && base > 0; i++ {
+		rng := gen.Derive(r.Seed, "C08pad", i)
+		tail := string(out[rng.Intn(base)])
+		if len(tail) > 200 || len(tail) == 0 {
+			continue
+		}
+		target := 4096*(1+rng.Intn(2)) - rng.Intn(len(tail)+1)
+		var pad string
+		switch rng.Intn(3) {
+		case 0:
+			pad = "--(" + strings.Repeat("c", max(0, target-6)) + ")--"
+		case 1:
+			pad = strings.Repeat(" ", target)
+		default:
+			pad = "find all '" + strings.Repeat("s", max(0, target-12)) + "' "
+		}
+		add("buffer-straddling", pad+tail)
+	}
 	for i := 0; i < nregex; i++ {
 		rng := gen.Derive(r.Seed, "C08regex", i)
 		n := rng.Intn(14)
@@ -157,7 +181,7 @@ func procProgramSource(rng *gen.Rng, i int) string {
 func C08(r *drv.Run) {
 	r.BuildWorker()
 	srcs, counts := c08Sources(r)
-	r.Rule = "sources: valid programs (hand corpus covering every production, repository examples, generated programs incl. process code) and, for each, every byte prefix and suffix, every one-token deletion/duplication/adjacent swap, every token prefix; random token soups; random bytes biased to lexer-significant characters; regex literals with arbitrary bodies, terminated and not. Each Compile runs in a killable worker under a lexer-read budget (hook H2), a 30 CPU-second and 1.5 GiB guard; outcome classified: program XOR error, printable non-empty error, no panic, no nil hole anywhere in the AST (reflective walk) or bytecode. Every distinct source text counts once (the valid base programs are the control group that must be accepted)."
+	r.Rule = "sources: valid programs (hand corpus covering every production, repository examples, generated programs incl. process code) and, for each, every byte prefix and suffix, every one-token deletion/duplication/adjacent swap, every token prefix; random token soups; random bytes biased to lexer-significant characters; regex literals with arbitrary bodies, terminated and not; hostile tails pushed across a multiple of the lexer's 4096-byte read buffer by a long comment, blank run or string. Each Compile runs in a killable worker under a lexer-read budget (hook H2), a 30 CPU-second and 1.5 GiB guard; outcome classified: program XOR error, printable non-empty error, no panic, no nil hole anywhere in the AST (reflective walk) or bytecode. Every distinct source text counts once (the valid base programs are the control group that must be accepted)."
 	r.Assumptions = []string{
 		"bounded time/memory is decided as: lexer reads <= 64*(len+8)+4096 (hook count), <= 30 CPU-seconds and <= 1.5 GiB per Compile call",
 		"a hole is a nil pointer or nil interface reachable from the returned AST, or nil bytecode",
